@@ -85,5 +85,13 @@ theorem pin_l_respond_later : Gen.ReplyNet.src_l_respond_later =
     "loop.call_at(loop.time() + delay, self._respond_query, None, addr, port, transport, v6_flow_scope)" := rfl
 theorem pin_l_assembled : Gen.ReplyNet.src_l_assembled =
     "self._query_handler.handle_assembled_query(packets, addr, port, transport, v6_flow_scope)" := rfl
+/-- `_respond_query`: the deferred packets of the address first, the packet just received appended (so `packets[0]`, whose id and
+questions the unicast reply echoes, is the first packet of the train) — what `Listener.take` of `Model/Reply.lean` mirrors -/
+theorem pin_l_packets : Gen.ReplyNet.src_l_packets = "self._deferred.pop(addr, [])" := rfl
+theorem pin_l_packets_append : Gen.ReplyNet.src_l_packets_append = "packets.append(msg)" := rfl
+theorem l_append_if_msg (b : Bool) : Gen.ReplyNet.l_append_if_msg b = b := rfl
+/-- `DNSCache.async_get_unique`: the store is looked up under the record's lower-cased name (`key`), then by identity -/
+theorem pin_cache_unique_store : Gen.ReplyNet.src_cache_unique_store = "self.cache.get(entry.key)" := rfl
+theorem pin_cache_unique_ret : Gen.ReplyNet.src_cache_unique_ret = "store.get(entry)" := rfl
 
 end Zc.Reply.Net.GenFacts
